@@ -132,6 +132,12 @@ def _resolve_leaf(t, desc, n, allow_rm):
         cands = files + dirs
         src = cands[a % len(cands)]
         parents = [d for d in [""] + dirs if d != src and not d.startswith(src + "/")]
+        keep = os.path.basename(src)
+        into = [d for d in parents if d != os.path.dirname(src) and not fsmodel._exists(t, (d + "/" + keep) if d else keep)]
+        if into and b % 3 == 0:
+            # destination given as the folder to move into ('' = the project root); the resource keeps its name
+            parent = into[(b // 3) % len(into)]
+            return ["move", src, (parent + "/" + keep) if parent else keep, "into"]
         parent = parents[b % len(parents)]
         base = "mv%d" % n + ("" if src + "/" in t else ".py")
         return ["move", src, (parent + "/" + base) if parent else base]
